@@ -26,16 +26,22 @@ Arguments RDev {A} e.
 Arguments RRaw {A} e.
 
 Definition rgb := (N * N * N)%type.
-Definition frame := (list N * list rgb)%type.     (* pixel_indices, palette at the time of _present *)
+(* pixel_indices, palette and last_frame_rgb at the time of _present *)
+Definition frame := (list N * list rgb * list rgb)%type.
+
+(* _present: [palette[index] if index < len(palette) else black for index in pixel_indices] *)
+Definition expand (palette : list rgb) (pix : list N) : list rgb :=
+  map (fun index => nth (N.to_nat index) palette (0, 0, 0)) pix.
 
 Record sstate := mkss {
   s_width : N; s_height : N; s_bpp : N; s_palsize : N;
   s_palette : list rgb; s_pix : list N;
   s_buf : list N;                  (* _command_buffer *)
-  s_frames : list frame            (* presented frames, most recent first *)
+  s_frames : list frame;           (* presented frames, most recent first *)
+  s_rgb : list rgb                 (* last_frame_rgb *)
 }.
 
-Definition sinit : sstate := mkss 0 0 8 0 [] [] [] [].
+Definition sinit : sstate := mkss 0 0 8 0 [] [] [] [] [].
 
 Definition nseq (n : N) : list N := map N.of_nat (seq 0 (N.to_nat n)).
 Definition nthN (l : list N) (i : N) : N := nth (N.to_nat i) l 0.
@@ -105,26 +111,27 @@ Definition read_packed_bytes (first count : N) : sres (list N) :=
   end.
 
 Definition present (st : sstate) : sstate :=
+  let rgbs := expand st.(s_palette) st.(s_pix) in        (* recomputed from the CURRENT palette at every present *)
   mkss st.(s_width) st.(s_height) st.(s_bpp) st.(s_palsize) st.(s_palette) st.(s_pix) st.(s_buf)
-       ((st.(s_pix), st.(s_palette)) :: st.(s_frames)).
+       ((st.(s_pix), st.(s_palette), rgbs) :: st.(s_frames)) rgbs.
 
 Definition init_screen (st : sstate) (width height bpp palsize : N) : sres sstate :=
   if negb ((bpp =? 4) || (bpp =? 8)) then RDev (EBadBpp bpp)
   else if (width =? 0) || (height =? 0) then RDev EZeroSize
   else ROk (mkss width height bpp palsize
                  (repeat (0, 0, 0) (N.to_nat palsize)) (repeat 0 (N.to_nat (width * height)))
-                 st.(s_buf) st.(s_frames)).
+                 st.(s_buf) st.(s_frames) st.(s_rgb)).
 
 Definition set_palette (st : sstate) (addr : N) : sres sstate :=
   match read_packed_bytes addr (3 * st.(s_palsize)) with
   | ROk rgbs => ROk (mkss st.(s_width) st.(s_height) st.(s_bpp) st.(s_palsize) (triples rgbs) st.(s_pix)
-                          st.(s_buf) st.(s_frames))
+                          st.(s_buf) st.(s_frames) st.(s_rgb))
   | RDev e => RDev e
   | RRaw e => RRaw e
   end.
 
 Definition with_pix (st : sstate) (pix : list N) : sstate :=
-  mkss st.(s_width) st.(s_height) st.(s_bpp) st.(s_palsize) st.(s_palette) pix st.(s_buf) st.(s_frames).
+  mkss st.(s_width) st.(s_height) st.(s_bpp) st.(s_palsize) st.(s_palette) pix st.(s_buf) st.(s_frames) st.(s_rgb).
 
 Definition pixel_mask (st : sstate) : N := N.ones st.(s_bpp).
 
@@ -201,7 +208,7 @@ Definition execute_command (st : sstate) (cmd : N) (p : list N) : sres sstate :=
   else ROk st.
 
 Definition with_buf (st : sstate) (buf : list N) : sstate :=
-  mkss st.(s_width) st.(s_height) st.(s_bpp) st.(s_palsize) st.(s_palette) st.(s_pix) buf st.(s_frames).
+  mkss st.(s_width) st.(s_height) st.(s_bpp) st.(s_palsize) st.(s_palette) st.(s_pix) buf st.(s_frames) st.(s_rgb).
 
 (* _handle_byte *)
 Definition handle_byte (st : sstate) (b : N) : sres sstate :=
@@ -239,8 +246,9 @@ Record scase := mkscase {
   q_mem : option (N * list (N * N));        (* None: no memory attached; Some (ww, words of a dict-backed DeviceMemory) *)
   q_bytes : list N;
   z_err : N;                                (* 0 none, 1 IODeviceException, 2 anything else *)
-  z_frames : list (list N * list (N * N * N));   (* oldest first *)
+  z_frames : list (list N * list (N * N * N) * list N);   (* oldest first; last_frame_rgb as r*65536 + g*256 + b *)
   z_pix : list N; z_pal : list (N * N * N);  (* pixel_indices / palette after the stream *)
+  z_rgb : list N;                           (* last_frame_rgb after the stream, coded as above *)
   z_geom : list N                           (* width, height, bpp, palette_size after the stream *)
 }.
 
@@ -254,8 +262,10 @@ Definition rgb_eqb (a b : rgb) : bool :=
   let '(a1, a2, a3) := a in let '(b1, b2, b3) := b in (a1 =? b1) && (a2 =? b2) && (a3 =? b3).
 Fixpoint rgbs_eqb (a b : list rgb) : bool :=
   match a, b with [], [] => true | x :: a', y :: b' => rgb_eqb x y && rgbs_eqb a' b' | _, _ => false end.
-Definition frame_eqb (a b : frame) : bool := nlist_eqb (fst a) (fst b) && rgbs_eqb (snd a) (snd b).
-Fixpoint frames_eqb (a b : list frame) : bool :=
+Definition rgb_code (c : rgb) : N := let '(r, g, b) := c in r * 65536 + g * 256 + b.
+Definition frame_eqb (a : frame) (b : list N * list rgb * list N) : bool :=
+  nlist_eqb (fst (fst a)) (fst (fst b)) && rgbs_eqb (snd (fst a)) (snd (fst b)) && nlist_eqb (map rgb_code (snd a)) (snd b).
+Fixpoint frames_eqb (a : list frame) (b : list (list N * list rgb * list N)) : bool :=
   match a, b with [], [] => true | x :: a', y :: b' => frame_eqb x y && frames_eqb a' b' | _, _ => false end.
 
 Definition err_code (e : option (serr + sraw)) : N :=
@@ -264,5 +274,5 @@ Definition err_code (e : option (serr + sraw)) : N :=
 Definition check_scase (c : scase) : bool :=
   let '(st, e) := decode (case_view c) sinit c.(q_bytes) in
   (err_code e =? c.(z_err)) && frames_eqb (rev st.(s_frames)) c.(z_frames) &&
-  nlist_eqb st.(s_pix) c.(z_pix) && rgbs_eqb st.(s_palette) c.(z_pal) &&
+  nlist_eqb st.(s_pix) c.(z_pix) && rgbs_eqb st.(s_palette) c.(z_pal) && nlist_eqb (map rgb_code st.(s_rgb)) c.(z_rgb) &&
   nlist_eqb [st.(s_width); st.(s_height); st.(s_bpp); st.(s_palsize)] c.(z_geom).
